@@ -239,8 +239,27 @@ def wl_chop_cells(ctx, rng, case_no):
 def _styles():
     _, _, style = _mods()
     Style = style.Style
+    # (fresh objects on every call; the two link styles are EQUAL - same attributes, same URL - but distinct objects
+    # with link ids of their own: the id goes out to the terminal, a style handed back "because it compares equal"
+    # is not the style that was asked for)
     return [None, None, Style(), Style(bold=True), Style(color="red"),
-            Style(bgcolor="blue", italic=True), Style(color="#102030", underline=True)]
+            Style(bgcolor="blue", italic=True), Style(color="#102030", underline=True),
+            Style(link="https://example.org/a"), Style(link="https://example.org/a"),
+            Style(bold=True, link="https://example.org/b")]
+
+
+def _same_style(a, b):
+    """Identity of what gets written: equal styles with different link ids are different styles."""
+    if a is b:
+        return True
+    if a is None or b is None:
+        return False
+    return a == b and getattr(a, "link_id", None) == getattr(b, "link_id", None) and \
+        getattr(a, "link", None) == getattr(b, "link", None)
+
+
+def _same_item(x, y):
+    return len(x) == len(y) and x[:-1] == y[:-1] and _same_style(x[-1], y[-1])
 
 
 def _rand_segments(rng, newlines=True, controls=True):
@@ -294,7 +313,7 @@ def _check_line(ctx, name, src_items, out_line, length, pad, pad_style, src_cell
     i = 0
     n_src = len(src_items)
     for j, item in enumerate(out_items):
-        if i < n_src and item == src_items[i]:
+        if i < n_src and _same_item(item, src_items[i]):
             i += 1
             continue
         # remaining items must be filler: either half-of-wide replacement or padding
@@ -305,8 +324,8 @@ def _check_line(ctx, name, src_items, out_line, length, pad, pad_style, src_cell
         if src_cells < length:
             # pure padding: must carry the requested style
             for it in rest:
-                if it[1] != pad_style:
-                    ctx.violation(name + "-pad-style", dict(
+                if not _same_style(it[1], pad_style):
+                    ctx.violation(name + "-pad-style" + ("" if it[1] != pad_style else ":equal-style-with-another-link-id"), dict(
                         witness, pad_style_seen=str(it[1]), pad_style_wanted=str(pad_style)))
                     return
         else:
